@@ -22,7 +22,9 @@ MODES = {
     'C04': ['builtins'],
     'C05': ['budget', 'corpus'],
     'C10': ['nopanic', 'allbuiltins', 'builtins_np'],
+    'C08': ['flat'],
     'C11': ['debruijn'],
+    'C16': ['shrinker'],
 }
 
 
